@@ -9,6 +9,7 @@ import (
 	"fmt"
 	"sort"
 	"strings"
+	"time"
 
 	"github.com/elk-language/elk/value"
 	"github.com/elk-language/elk/verifrt"
@@ -312,12 +313,16 @@ func main() {
 		Rule: "configurations = all assignments of operation sequences over {Add(a), Add(b), Get(a), GetName(0), GetName(1)} to 2 threads x 2 ops and 3 threads x 1 op (thorough: 2x3 and 3 threads 2+1+1) on a fresh real SymbolTable; for each configuration (1) ALL interleavings of the RWMutex operations are explored (unbounded DFS with happens-before state caching, scheduling points before every lock operation and after every release) and (2) with an additional scheduling point before every statement of symbol_table.go, every schedule with at most 2 (thorough 3) preemptions; " +
 			"oracle: brute-force linearizability of the call/return history against a sequential map + final bijection observed through Get/GetName; non-trivial = configurations whose executions produced more than one distinct history",
 		Assume: []string{"scheduling points only at sync operations: unsynchronised accesses are invisible to the explorer (the free-running -race pass of bin/racepass covers them)", "happens-before state caching assumes the table's state is only accessed under its lock"},
+		CaseTimeout: 20 * time.Minute,
 		Run: func(c *engine.Ctx) {
 			cs := configs(c.Thorough)
 			if c.Thorough {
 				stmtBound = 3
 			}
-			const block = 8
+			block := 8
+			if c.Thorough {
+				block = 2 // statement-level pass with bound 3 is ~100x the quick work per configuration
+			}
 			for lo := 0; lo < len(cs); lo += block {
 				hi := min(lo+block, len(cs))
 				part := cs[lo:hi]
